@@ -17,9 +17,9 @@ import (
 )
 
 type e2eCfg struct {
-	mtu, pt    int
-	ssrc, ts0  uint32
-	seq0, abs  int
+	mtu, pt   int
+	ssrc, ts0 uint32
+	seq0, abs int
 }
 
 func (g e2eCfg) overhead() int {
@@ -443,26 +443,88 @@ func genE2EVP8(x *Ctx) {
 	}
 }
 
-// ---- VP9 (flexible mode: the mode pipeline_vp9_flex covers)
+// ---- VP9 (both modes; in non-flexible mode the frames start with a described VP9 header)
+
+// e2eVP9Frame builds a frame of about n bytes; with a header description it starts with that
+// header's bits (what the non-flexible payloader parses).
+func e2eVP9Frame(r *Rand, h *vp9Hdr, n int) e2eFrame {
+	var b []byte
+	if h != nil {
+		b = h.frame(r, n)
+	} else {
+		if n < 1 {
+			n = 1
+		}
+		b = r.Bytes(n)
+	}
+	return e2eFrame{payload: b, samples: 3000, now: pktzClockValueIn(r), extra: func(t *Toks) { h.write(t) }}
+}
 
 func genE2EVP9(x *Ctx) {
-	run := func(c *Case, g e2eCfg, init int, frames []e2eFrame) {
+	run := func(c *Case, g e2eCfg, flex bool, init int, frames []e2eFrame) {
 		pid := uint16(init)
-		pay := &codecs.VP9Payloader{FlexibleMode: true, InitialPictureIDFn: func() uint16 { return pid }}
+		pay := &codecs.VP9Payloader{FlexibleMode: flex, InitialPictureIDFn: func() uint16 { return pid }}
 		dep := &codecs.VP9Packet{}
-		runE2E(c, g, pay, dep.Unmarshal, func(t *Toks) { t.Bool(true).Nat(init) }, frames)
+		if flex {
+			c.Tag("flexible")
+		} else {
+			c.Tag("non-flexible")
+		}
+		runE2E(c, g, pay, dep.Unmarshal, func(t *Toks) { t.Bool(flex).Nat(init) }, frames)
+	}
+	// a header description the non-flexible statement covers: key or non-key, sizes <= 65535
+	hdr := func(r *Rand) *vp9Hdr {
+		for {
+			h := randVp9Hdr(r)
+			if h.Kind != "se" && h.W <= 65535 && h.H <= 65535 {
+				return h
+			}
+		}
 	}
 	e2eGrid(x, 4, func(c *Case, g e2eCfg, lens []int) {
 		var fs []e2eFrame
 		for _, n := range lens {
-			fs = append(fs, e2eFrame{payload: c.R.Bytes(n), samples: 3000, now: pktzClockValueIn(c.R)})
+			fs = append(fs, e2eVP9Frame(c.R, nil, n))
 		}
-		run(c, g, c.R.Pick(0, 0x7FFE, 0x7FFF, 0x8000, 0xFFFF), fs)
+		run(c, g, true, c.R.Pick(0, 0x7FFE, 0x7FFF, 0x8000, 0xFFFF), fs)
 	})
-	for i, n := 0, x.N(2000, 80000); i < n; i++ {
+	e2eGrid(x, 12, func(c *Case, g e2eCfg, lens []int) {
+		var fs []e2eFrame
+		for i, n := range lens {
+			h := hdr(c.R)
+			if i == 0 {
+				h.Kind = "key" // the first packet carries the scalability structure: 11 octets of descriptor
+			}
+			fs = append(fs, e2eVP9Frame(c.R, h, n))
+		}
+		run(c, g, false, c.R.Pick(0, 0x7FFE, 0x7FFF, 0x8000, 0xFFFF), fs)
+	})
+	for i, n := 0, x.N(2500, 100000); i < n; i++ {
 		x.Case(func(c *Case) {
-			g := e2eGenCfg(c.R, 4)
-			run(c, g, c.R.Pick(0, 1, 0x7FFE, 0x7FFF, 0x8000, 0xFFFF, c.R.Intn(65536)), e2eRawFrames(c.R, g, 0))
+			r := c.R
+			flex := r.Bool()
+			need := 4
+			if !flex {
+				need = r.Pick(4, 12, 12) // 4 suffices for non-key frames only
+			}
+			g := e2eGenCfg(r, need)
+			nfr := r.Pick(1, 1, 2, 3, r.Range(1, 5))
+			var fs []e2eFrame
+			for len(fs) < nfr {
+				var h *vp9Hdr
+				switch {
+				case flex && r.Chance(1, 3):
+					h = randVp9Hdr(r) // described although the flexible payloader does not look
+				case !flex && r.Chance(1, 12):
+					h = randVp9Hdr(r) // any description, also show_existing_frame / 65536: outside the hypotheses
+				case !flex && r.Chance(1, 25):
+					h = nil // random bytes: outside the hypotheses (correspondence only)
+				case !flex:
+					h = hdr(r)
+				}
+				fs = append(fs, e2eVP9Frame(r, h, e2eFrameLen(r, g.budget())))
+			}
+			run(c, g, flex, r.Pick(0, 1, 0x7FFE, 0x7FFF, 0x8000, 0xFFFF, r.Intn(65536)), fs)
 		})
 	}
 }
